@@ -1,6 +1,7 @@
 (* Lemmas about Model/Constraints.v : the decision logic of validate_constraints. *)
 From Coq Require Import List Arith Bool Lia.
-From TLV Require Import Base.PyList Base.Tensor Model.Constraints.
+From TLV Require Import Base.PyList Base.Tensor.
+From TLV Require Import Model.Constraints.
 Import ListNotations.
 
 Lemma kind_id_inj a b : kind_id a = kind_id b -> a = b.
@@ -346,6 +347,50 @@ Section Spec.
   Proof. revert m; induction n; intros [|m]; simpl; auto. Qed.
 
   (* Ok table: entry m is exactly what the user asked for on mode m *)
+  (* a scan that succeeds has seen well-formed values only: a dict with a repeated key is rejected by the scan itself *)
+  Lemma scan_one_wf n seen s seen' : scan_one truthy n seen s = Ok seen' -> wf_spec s.
+  Proof.
+    destruct s as [|q|l|d]; simpl; auto.
+    destruct d as [|e r]; [constructor|].
+    unfold scan_one, assigns. cbn [spec_truthy is_nil negb]. intros H. apply add_all_ok in H. tauto.
+  Qed.
+
+  Lemma scan_wf n : forall sp seen seen', scan truthy n seen sp = Ok seen' -> Forall (fun a => wf_spec (snd a)) sp.
+  Proof.
+    induction sp as [|[k s] r IH]; intros seen seen' H; simpl in H; [constructor|].
+    destruct (scan_one truthy n seen s) as [seen1|] eqn:E1; simpl in H; [|discriminate H].
+    constructor; [simpl; eapply scan_one_wf; eauto | eapply IH; eauto].
+  Qed.
+
+  (* Ok table: entry m is exactly what the user asked for on mode m - no hypothesis at all *)
+  Theorem validate_table_ok_any n sp tab : validate_table truthy n sp = Ok tab ->
+    length tab = n /\
+    (forall m k p, nth m tab None = Some (k, p) <-> exists s, In (k, s) sp /\ requested n s m p) /\
+    (forall m, nth m tab None = None <-> forall k s p, In (k, s) sp -> ~ requested n s m p).
+  Proof.
+    intros H. assert (W : Forall (fun a => wf_spec (snd a)) sp).
+    { unfold validate_table in H. destruct (scan truthy n [] sp) as [seen|] eqn:E; simpl in H; [|discriminate H].
+      eapply scan_wf; eauto. }
+    unfold validate_table in H.
+    destruct (scan truthy n [] sp) as [seen|] eqn:E; simpl in H; [|discriminate H].
+    apply scan_ok in E; auto. destruct E as (_ & F & _).
+    pose proof (register_length _ _ _ _ H) as L. rewrite repeat_length in L.
+    pose proof (register_ok _ _ _ _ H W F) as (A & B).
+    assert (Fwd : forall m k p, (exists s, In (k, s) sp /\ requested n s m p) -> nth m tab None = Some (k, p)).
+    { intros m k p (s & Hin & Hr). eapply A; eauto. apply assigns_requested. exact Hr. }
+    split; [exact L|]. split.
+    - intros m k p. split; [|apply Fwd].
+      intros Hn. destruct (Hits_dec n sp m) as [(k' & s' & Hin & Hh) | Hno].
+      + apply hits_requested in Hh. destruct Hh as (p' & Hr).
+        assert (X : nth m tab None = Some (k', p')) by (apply Fwd; exists s'; auto).
+        rewrite X in Hn. inversion Hn; subst. exists s'. auto.
+      + rewrite (B m Hno), nth_repeat_None in Hn. discriminate Hn.
+    - intros m. split.
+      + intros Hn k s p Hin Hr. rewrite (Fwd m k p) in Hn; [discriminate Hn|]. exists s; auto.
+      + intros Hno. rewrite B; [apply nth_repeat_None|].
+        intros (k & s & Hin & Hh). apply hits_requested in Hh. destruct Hh as (p & Hr). eapply Hno; eauto.
+  Qed.
+
   Theorem validate_table_ok n sp tab : wf_specs sp -> validate_table truthy n sp = Ok tab ->
     length tab = n /\
     (forall m k p, nth m tab None = Some (k, p) <-> exists s, In (k, s) sp /\ requested n s m p) /\
